@@ -290,6 +290,74 @@ impl Prop for C06 {
             st.violation(case, sig, msg, json!({"detail": detail, "shape": pj, "check_seed": seed.to_string()}));
         }
     }
+    fn extra_stage(&self, st: &mut Stats, tier: Tier, seed: u64) {
+        // The pixel encoding: a value pixel of any bit pattern (NaNs of any
+        // sign and payload included - `mix`, and arithmetic on NaN constants,
+        // produce them) must unpack as a value and be inside exactly when
+        // it is negative; a fill must unpack as the same fill.
+        use fidget_raster::pixel::RawDistancePixel as Raw;
+        let mut rng = Rng::for_case(seed, "C06-encoding", 0);
+        let mut bad: Option<(String, String)> = None;
+        let check_value = |bits: u32, st: &mut Stats| -> Option<(String, String)> {
+            let v = f32::from_bits(bits);
+            let raw = Raw::from(v);
+            st.inc("encoding_value_patterns_checked");
+            let un = raw.unpack();
+            let ok = match un {
+                DistancePixel::Value(w) => (v.is_nan() && w.is_nan()) || w.to_bits() == bits,
+                DistancePixel::Fill { .. } => false,
+            };
+            if !ok || !raw.is_distance() {
+                return Some(("encoding:value_unpacks_as_fill".into(), format!("the value pixel {v:?} (0x{bits:08x}) unpacks as {un:?}")));
+            }
+            if raw.inside() != (v < 0.0) {
+                return Some(("encoding:value_inside".into(), format!("the value pixel {v:?} (0x{bits:08x}) reports inside = {}", raw.inside())));
+            }
+            None
+        };
+        // all NaN patterns in the thorough tier, a structured sample otherwise
+        let nan_patterns: Box<dyn Iterator<Item = u32>> = if tier == Tier::Thorough {
+            Box::new((0u32..(1 << 24)).map(|k| 0x7f80_0000 | (k & 0x7f_ffff) | ((k >> 23) << 31)).filter(|b| b & 0x7f_ffff != 0))
+        } else {
+            let mut v: Vec<u32> = vec![];
+            // every value of mantissa bits 9..=22 (the marker bits and those
+            // above them), both signs, with a few settings of the low bits
+            for hi in 0u32..(1 << 14) {
+                for low in [0u32, 1, 2, 0x1ff, 0x155] {
+                    for sign in [0u32, 1] {
+                        let b = 0x7f80_0000 | (hi << 9) | low | (sign << 31);
+                        if b & 0x7f_ffff != 0 {
+                            v.push(b);
+                        }
+                    }
+                }
+            }
+            Box::new(v.into_iter())
+        };
+        for b in nan_patterns {
+            if bad.is_none() {
+                bad = check_value(b, st);
+            }
+        }
+        for _ in 0..tier.pick(1_000_000u64, 16_000_000u64) {
+            if bad.is_none() {
+                bad = check_value(rng.next_u64() as u32, st);
+            }
+        }
+        for depth in 0..=255u8 {
+            for inside in [false, true] {
+                let raw = Raw::from(DistancePixel::Fill { depth, inside });
+                st.inc("encoding_fill_patterns_checked");
+                let ok = matches!(raw.unpack(), DistancePixel::Fill { depth: d, inside: i } if d == depth && i == inside);
+                if (!ok || raw.is_distance() || raw.inside() != inside) && bad.is_none() {
+                    bad = Some(("encoding:fill_roundtrip".into(), format!("Fill {{ depth: {depth}, inside: {inside} }} unpacks as {:?}", raw.unpack())));
+                }
+            }
+        }
+        if let Some((sig, msg)) = bad {
+            st.violation(0, sig, msg, json!({"stage": "pixel encoding"}));
+        }
+    }
     fn replay_detail(&self, replay: &Value, st: &mut Stats) -> bool {
         // shape and setup are taken from the file (independent of generators)
         let d = &replay["detail"];
